@@ -60,11 +60,15 @@ impl<T: Send + Ord + 'static> OrderedVec<T> {
             }
         }
 
+        // the movement limit was hit while the batch still holds items smaller than `sorted.last()`
+        let too_many_moved = !items.is_empty()
+            && !sorted.is_empty()
+            && self.compare_item(items.last().unwrap(), sorted.last().unwrap()) == Ordering::Less;
+
         if !items.is_empty() {
             self.sub_vectors.borrow_mut().push(items);
         }
 
-        let too_many_moved = items_smaller.len() >= ORDERED_SIZE;
         trace!("append_ordered: num_moved: {}", items_smaller.len());
 
         sorted.append(&mut items_smaller);
@@ -72,8 +76,8 @@ impl<T: Send + Ord + 'static> OrderedVec<T> {
             // means the current sorted vector contains item that's large
             // so we'll move the sorted vector to partially sorted candidates.
             self.sort_vector(&mut sorted, false);
-            let old_vec = self.sorted.replace(DeferDrop::new(Vec::new()));
-            self.sub_vectors.borrow_mut().push(DeferDrop::into_inner(old_vec));
+            let old_vec = std::mem::take(&mut **sorted);
+            self.sub_vectors.borrow_mut().push(old_vec);
         } else {
             self.sort_vector(&mut sorted, true);
         }
